@@ -269,3 +269,22 @@ void h_clear_or_wait(void) {
   VASSERT(!G.bad && r == (void*)&W1 && G.cw_taken == 1, "H: C01 clear_or_wait returns exactly the non-NULL value its exchange removed from the location (taken once), yielding in between");
   VCANARY("clear_or_wait can return");
 }
+/* ---- the mpmc node pool (fiber_manager_get_mpmc_node / fiber_manager_return_mpmc_node*, real lockfree ring buffer underneath; sequential:
+ * the ring's own concurrency is C16).  The semaphore's wait queue (C06) and every mpmc park (wait_in_mpmc_queue) draw their nodes from here:
+ * a node handed out is not handed out again until it has been given back; a node given back is reused; every node carries the pool's reclaim
+ * function (the hazard-pointer layer calls it when the node is safe to reuse) and the hazard header sits at offset 0 (the pool stores
+ * hazard_node_t* and hands out mpmc_fifo_node_t*).  Allocation failure is not explored: the pool does not handle it (observation, DESIGN 11.5). */
+void h_node_pool(void) {
+  fiber_free_mpmc_nodes = 0;
+  VASSERT(__builtin_offsetof(mpmc_fifo_node_t, hazard) == 0, "H: C16 pool: the hazard header is the first member of an mpmc node (the pool converts between the two pointer types)");
+  mpmc_fifo_node_t* a = fiber_manager_get_mpmc_node();
+  VASSERT(a != 0 && fiber_free_mpmc_nodes != 0 && a->hazard.gc_function == &fiber_manager_return_mpmc_node_internal, "H: C16 pool: an empty pool hands out a fresh node that carries the pool's reclaim function");
+  mpmc_fifo_node_t* b = fiber_manager_get_mpmc_node();
+  VASSERT(b != 0 && b != a, "H: C16 pool: a node in use is not handed out a second time");
+  fiber_manager_return_mpmc_node(a);
+  mpmc_fifo_node_t* c = fiber_manager_get_mpmc_node();
+  VASSERT(c == a && c->hazard.gc_function == &fiber_manager_return_mpmc_node_internal, "H: C16 pool: a node given back is the next one handed out (nothing is lost, its reclaim function intact)");
+  mpmc_fifo_node_t* d = fiber_manager_get_mpmc_node();
+  VASSERT(d != 0 && d != a && d != b, "H: C16 pool: a node given back once is handed out once");
+  VCANARY("node pool can return");
+}
